@@ -35,6 +35,7 @@ class CEval:
         for (pn, pt), v in zip(func.params, args):
             it = int_type(pt)
             env[pn] = wrap(v, *it) if (it and isinstance(v, int)) else v
+            env['\x00ty:' + pn] = it
         r = self._block(func.body, env, this, depth)
         if r is None:
             return None
@@ -44,6 +45,38 @@ class CEval:
             v = wrap(v, *it)
         return v
 
+    def construct(self, cls, args, depth):
+        """value of `Cls{args}` / `Cls(args)`: run the constructor with that arity (member initialisers are lowered to
+        this.field = expr), or, for an aggregate, bind the arguments to the fields in declaration order."""
+        if not isinstance(cls, str):
+            return None
+        q = cls.replace('const ', '').strip()
+        try:
+            flds = self.tu.fields(q)
+        except Exception:
+            return None
+        if not flds:
+            return None
+        ctors = [f for f in self.tu.fns(q + '::' + q.split('::')[-1]) if len(f.params) == len(args)]
+        if ctors:
+            obj = Obj({n: None for n, _t, _n in flds}, ty=q)
+            if depth > self.max_depth:
+                raise AnalysisError('%s: inlining bound exceeded' % ctors[0].loc)
+            env = {}
+            for (pn, pt), v in zip(ctors[0].params, args):
+                it = int_type(pt)
+                env[pn] = wrap(v, *it) if (it and isinstance(v, int)) else v
+                env['\x00ty:' + pn] = it
+            self._block(ctors[0].body, env, obj, depth + 1)
+            return obj
+        if len(flds) == len(args):
+            out = {}
+            for (n, t, _n), v in zip(flds, args):
+                it = int_type(t)
+                out[n] = wrap(v, *it) if (it and isinstance(v, int)) else v
+            return Obj(out, ty=q)
+        return None
+
     def _block(self, block, env, this, depth):
         for s in block:
             k, a = s.k, s.a
@@ -51,10 +84,26 @@ class CEval:
                 v = self.eval(a[2], env, this, depth) if a[2] is not None else None
                 it = int_type(a[1])
                 env[a[0]] = wrap(v, *it) if (it and isinstance(v, int)) else v
+                env['\x00ty:' + a[0]] = it
             elif k == 'assign':
-                if a[0].k != 'var' or a[2] != '=':
+                if a[0].k == 'field' and a[0].a[0].k == 'this' and isinstance(this, Obj) and a[2] == '=':
+                    # member initialiser / member store while an object is being constructed
+                    v = self.eval(a[1], env, this, depth)
+                    it = int_type(a[0].ty)
+                    this.fields[a[0].a[1]] = wrap(v, *it) if (it and isinstance(v, int)) else v
+                    continue
+                if a[0].k != 'var':
                     raise AnalysisError('%s: accessor body is not a pure expression function' % s.loc)
-                env[a[0].a[0]] = self.eval(a[1], env, this, depth)
+                v = self.eval(a[1], env, this, depth)
+                if a[2] != '=':
+                    cur = env.get(a[0].a[0])
+                    if not (isinstance(cur, int) and isinstance(v, int)):
+                        raise Unknown('compound assignment on non-integers at %s' % s.loc)
+                    v = fold_binop(a[2][:-1], cur, v)
+                    if v is None:
+                        raise Unknown('cannot fold %s at %s' % (a[2], s.loc))
+                it = env.get('\x00ty:' + a[0].a[0])
+                env[a[0].a[0]] = wrap(v, *it) if (it and isinstance(v, int)) else v
             elif k == 'if':
                 c = self.eval(a[0], env, this, depth)
                 r = self._block(a[1] if c else a[2], env, this, depth)
@@ -163,7 +212,8 @@ class CEval:
                 raise Unknown('external call %s' % name)
             args = [self.eval(x, env, this, depth) for x in a[2]]
             recv = self.eval(a[1], env, this, depth) if a[1] is not None else None
-            return self.call(fs[0], recv, args, depth + 1)
+            same = [f for f in fs if len(f.params) == len(args)]
+            return self.call((same or fs)[0], recv, args, depth + 1)
         if k == 'index':
             i = self.eval(a[1], env, this, depth)
             b = a[0]
@@ -179,7 +229,8 @@ class CEval:
             raise Unknown('subscript of %s' % show(b))
         if k == 'init':
             args = [self.eval(x, env, this, depth) for x in a[1]]
-            return ('init', a[0], tuple(args))
+            obj = self.construct(a[0], args, depth)
+            return obj if obj is not None else ('init', a[0], tuple(args))
         raise Unknown('expression kind %s: %s' % (k, show(e)))
 
 
